@@ -266,6 +266,10 @@ class FortranAST:
                 if include_ast.none_scope:
                     if include_ast.inc_scope is None:
                         include_ast.inc_scope = include_ast.none_scope
+                    # A file that (transitively) includes itself has nothing to
+                    # import; adding a scope's children to itself never terminates
+                    if include_ast.inc_scope is parent_scope:
+                        continue
                     # Remove old objects
                     for obj in added_entities:
                         parent_scope.children.remove(obj)
